@@ -335,10 +335,18 @@ class InjectorSystem(System):
             self.cache[key] = ent
         return ent
 
-    def prime(self, inj, ct):
+    def prime(self, inj, ct, labels=None):
         """Use the same injector instance on the OTHER container type first
-        (Injector._columns is remembered between calls)."""
+        (Injector._columns is remembered between calls); for DataFrame targets also on a frame that carries the
+        same column labels at other positions (anything remembered per label must not survive the call)."""
+        if labels is not None and not ct.startswith("nd") and len(labels) >= 2:
+            k = len(labels)
+            rev = pd.DataFrame(np.array([[0.0] * k, [1.0] * k]), columns=list(reversed(list(labels))))  # classes 0 and 1 in every column
+            self._prime_call(inj, rev, labels[0], labels[1])
         other, (c0, c1) = prime_data(ct)
+        self._prime_call(inj, other, c0, c1)
+
+    def _prime_call(self, inj, other, c0, c1):
         n = self.name
         try:
             with owned_rng(OwnedRng([], 1, 1)):
@@ -413,7 +421,7 @@ class InjectorSystem(System):
         obj, rows, labels, kinds, snap = self.data(spec)
         inj = self.cls()
         if ev.get("prime"):
-            self.prime(inj, ct)
+            self.prime(inj, ct, labels)
             ctx.count("primed_calls")
         real = ev["args"].get("rs") is not None
         caps = tuple(ev.get("caps") or self.caps)
